@@ -150,7 +150,7 @@ Definition agree (r : res (list omap)) (e : option (list (Z * Z * list Z * Z))) 
 # ------------------------------------------------------------------------------------------------ generators
 def gen_molecules(rng, nmax=8, maxlabels=40):
     n = rng.choice([0, 1, 1, 2, 3, 4, 5, nmax])
-    pool = rng.choice([range(1, 30), range(1, 10 ** 6), range(1, 2 * 10 ** 9)])
+    pool = rng.choice([range(1, 30), range(1, 10 ** 6), range(1, 2 * 10 ** 9), range(2 ** 53 - 20, 2 ** 53 + 2000), range(2 ** 62, 2 ** 62 + 999)])   # ids beyond 2^53: not representable as doubles
     ids = rng.sample(pool, n)
     mols = []
     span = rng.choice([60, 3000, 10 ** 6, 3 * 10 ** 8])       # tenths; a small span forces duplicate positions
